@@ -1,5 +1,6 @@
 (* C02 — header-type sections display exactly the values encoded in the log. *)
 From Coq Require Import List NArith ZArith Bool Arith.
+From PV Require Gen.Layouts Spec.PublishedLayouts Proofs.LayoutFacts Base.Reader.
 From PV Require Import Base.Bytes Base.Lit Base.Json Base.PelTypes Model.Parse Model.Render Spec.Encode Spec.DocOf Gen.Tables
                        Proofs.ParseFacts Proofs.RenderFacts.
 Import ListNotations.
@@ -57,6 +58,78 @@ Print Assumptions C02_mt_display.
 Theorem C02_lp_display : forall e h c x, wf_hdr h -> wf_lp x -> render_lp e h [c] x = Some (doc_lp (se_of e) c h x).
 Proof. exact render_lp_spec. Qed.
 Print Assumptions C02_lp_display.
+
+(* ---- the tie to the source text ----
+   Gen/Layouts.v is extracted on every run from the source text of PrivateHeader.toJSON, UserHeader.toJSON,
+   ExtendedUserHeader.toJSON, FailingMTMS.toJSON and getTimestamp (harness/extract_layouts.py, fail-closed Python-ast walk): for
+   every read of the stream the attribute it goes to, the primitive (get_int / get_mem / getTimestamp), the width and the
+   expression wrapped around it ('0x{:08X}'.format(_), bytes.decode(_) ...); for every displayed key the expression shown.
+   They equal the published tables ... *)
+Theorem C02_source_layouts :
+  Gen.Layouts.rd_getTimestamp = Spec.PublishedLayouts.rd_getTimestamp /\
+  Gen.Layouts.rd_PrivateHeader = Spec.PublishedLayouts.rd_PrivateHeader /\
+  Gen.Layouts.rd_UserHeader = Spec.PublishedLayouts.rd_UserHeader /\
+  Gen.Layouts.rd_ExtendedUserHeader = Spec.PublishedLayouts.rd_ExtendedUserHeader /\
+  Gen.Layouts.rd_FailingMTMS = Spec.PublishedLayouts.rd_FailingMTMS.
+Proof. repeat split; reflexivity. Qed.
+Print Assumptions C02_source_layouts.
+
+Theorem C02_source_displays :
+  Gen.Layouts.sh_PrivateHeader = Spec.PublishedLayouts.sh_PrivateHeader /\
+  Gen.Layouts.sh_UserHeader = Spec.PublishedLayouts.sh_UserHeader /\
+  Gen.Layouts.sh_ExtendedUserHeader = Spec.PublishedLayouts.sh_ExtendedUserHeader /\
+  Gen.Layouts.sh_FailingMTMS = Spec.PublishedLayouts.sh_FailingMTMS.
+Proof. repeat split; reflexivity. Qed.
+Print Assumptions C02_source_displays.
+
+(* ... and the model's readers are the generic reader over the published read sequences: every field is read with that width,
+   in that order (LayoutFacts.read_fields reads get_mem of the width per entry, a time stamp by the seven reads of getTimestamp) *)
+Theorem C02_ph_reader_is_layout : forall len h s,
+  parse_ph_body len h s =
+  match LayoutFacts.read_fields Spec.PublishedLayouts.rd_PrivateHeader s with
+  | Some ([cr; cm; c; r0; r1; n; ob; cv; pl; ei], rest) =>
+      Some ({| ph_hdr := h; ph_len := len; ph_create := cr; ph_commit := cm; ph_creator := LayoutFacts.num c; ph_res0 := LayoutFacts.num r0;
+               ph_res1 := LayoutFacts.num r1; ph_count := LayoutFacts.num n; ph_obmc := LayoutFacts.num ob; ph_cver := LayoutFacts.num cv;
+               ph_plid := LayoutFacts.num pl; ph_eid := LayoutFacts.num ei |}, rest)
+  | _ => None
+  end.
+Proof. exact LayoutFacts.private_header_layout. Qed.
+Print Assumptions C02_ph_reader_is_layout.
+
+Theorem C02_uh_reader_is_layout : forall len h s,
+  parse_uh_body len h s =
+  match LayoutFacts.read_fields Spec.PublishedLayouts.rd_UserHeader s with
+  | Some ([a; b; c; d; r; e; f; g; st], rest) =>
+      Some ({| uh_hdr := h; uh_len := len; uh_subsys := LayoutFacts.num a; uh_scope := LayoutFacts.num b; uh_sev := LayoutFacts.num c;
+               uh_etype := LayoutFacts.num d; uh_res4 := LayoutFacts.num r; uh_domain := LayoutFacts.num e; uh_vector := LayoutFacts.num f;
+               uh_flags := LayoutFacts.num g; uh_states := LayoutFacts.num st |}, rest)
+  | _ => None
+  end.
+Proof. exact LayoutFacts.user_header_layout. Qed.
+Print Assumptions C02_uh_reader_is_layout.
+
+Theorem C02_mt_reader_is_layout : forall s,
+  parse_mt s = match LayoutFacts.read_fields Spec.PublishedLayouts.rd_FailingMTMS s with
+               | Some ([a; b], rest) => Some ({| t_mtm := a; t_sn := b |}, rest)
+               | _ => None
+               end.
+Proof. exact LayoutFacts.failing_mtms_layout. Qed.
+Print Assumptions C02_mt_reader_is_layout.
+
+Theorem C02_eh_reader_is_layout : forall s,
+  parse_eh s =
+  match LayoutFacts.read_fields (LayoutFacts.fixed_prefix Spec.PublishedLayouts.rd_ExtendedUserHeader) s with
+  | Some ([a; b; c; d; r; t; r1; r2; r3; sl], rest) =>
+      match (if LayoutFacts.num sl =? 0 then Reader.ret [] else Reader.get_memN (LayoutFacts.num sl)) rest with
+      | Some (sym, rest') =>
+          Some ({| e_mtm := a; e_sn := b; e_fw := c; e_subfw := d; e_res4 := LayoutFacts.num r; e_reftime := t; e_r1 := LayoutFacts.num r1;
+                   e_r2 := LayoutFacts.num r2; e_r3 := LayoutFacts.num r3; e_symlen := LayoutFacts.num sl; e_sym := sym |}, rest')
+      | None => None
+      end
+  | _ => None
+  end.
+Proof. exact LayoutFacts.ext_user_header_layout. Qed.
+Print Assumptions C02_eh_reader_is_layout.
 
 (* non-vacuity: three target partitions are all displayed, ids below 0x10000000 keep their zeros *)
 Example C02_example :
